@@ -181,6 +181,8 @@ class Survey:
                     e["from_dh"] = "%.4f" % o["fdh"]
                 if o["tdh"]:
                     e["to_dh"] = "%.4f" % o["tdh"]
+                if "angle_dh" in self.feat and o["t"] == "angle":
+                    e["from_dh"], e["bs_dh"], e["fs_dh"] = "1.5100", "1.3200", "1.2300"
                 if "dir_dh" in self.feat and o["t"] == "direction":
                     e["from_dh"], e["to_dh"] = "1.4500", "%.4f" % (1.2 + 0.1 * (len(ol) % 3))
                 if "extern" in self.feat:
@@ -475,7 +477,7 @@ def apply_edit(sv, e):
         for st in sorted(set(o["fr"] for o in s.obs if o["t"] == "direction")):
             s.orient.setdefault(st, 12.3456)
     elif k == "InputFeatures":
-        s.feat = set(sv.feat) | {{1: "coords_split", 2: "dh_dist", 3: "dh_dist_only", 4: "dir_dh", 5: "extern"}[e["s"]]}
+        s.feat = set(sv.feat) | {{1: "coords_split", 2: "dh_dist", 3: "dh_dist_only", 4: "dir_dh", 5: "extern", 6: "angle_dh"}[e["s"]]}
     elif k == "AttachHeights":
         for i, o in enumerate(s.obs):
             if o["t"] in ("s-distance", "z-angle"):
